@@ -80,6 +80,7 @@ type TypeLocks struct {
 	Order     []*FuncLocks
 	Fields    []string
 	Written   map[string]bool // fields written outside constructors
+	PkgLock   types.Object    // when set: the guarding mutex is this package-level variable
 }
 
 // FindLockField returns the name of the struct's sync.Mutex/RWMutex/*sync.Cond field.
@@ -108,8 +109,16 @@ type analyzer struct {
 
 // Analyze runs the per-method dataflow for all methods of t (iterating held-at-entry to a fixpoint).
 func Analyze(p *core.Program, t *types.Named) *TypeLocks {
+	return AnalyzeWith(p, t, nil)
+}
+
+// AnalyzeWith is Analyze with a package-level mutex variable as the guarding lock.
+func AnalyzeWith(p *core.Program, t *types.Named, pkgLock types.Object) *TypeLocks {
 	lf, cond := FindLockField(t)
-	tl := &TypeLocks{Type: t, LockField: lf, CondLock: cond, Funcs: map[*types.Func]*FuncLocks{}, Written: map[string]bool{}}
+	tl := &TypeLocks{Type: t, LockField: lf, CondLock: cond, Funcs: map[*types.Func]*FuncLocks{}, Written: map[string]bool{}, PkgLock: pkgLock}
+	if pkgLock != nil {
+		tl.LockField, tl.CondLock = "", false
+	}
 	if st, ok := t.Underlying().(*types.Struct); ok {
 		for i := 0; i < st.NumFields(); i++ {
 			tl.Fields = append(tl.Fields, st.Field(i).Name())
@@ -200,6 +209,13 @@ func (a *analyzer) lockOp(info *types.Info, recv types.Object, call *ast.CallExp
 		return ""
 	}
 	x := ast.Unparen(sel.X)
+	if a.tl.PkgLock != nil {
+		id, ok := x.(*ast.Ident)
+		if ok && info.ObjectOf(id) == a.tl.PkgLock {
+			return op
+		}
+		return ""
+	}
 	if a.tl.CondLock {
 		// recv.f.L.Lock()
 		l, ok := x.(*ast.SelectorExpr)
